@@ -225,7 +225,9 @@ Inductive shape :=
 | SMapVal (s : shape)                (* map[string]T{"k": x} *)
 | SMapKey                            (* map[configopaque.String]string{x: "v"} *)
 | SMapKey2                           (* ... {x: "v", x+"#2": "w"}: two opaque keys (second x sorts after x) *)
-| SIface (s : shape).                (* a field / element of type any holding T *)
+| SIface (s : shape)                 (* a field / element of type any holding T *)
+| SMarsh (s : shape).                (* a struct { V any } that implements confmap.Marshaler by merging {"v": V} — the
+                                        TYPED value — into its Conf (the generic encoder has to encode the hook's result) *)
 
 Fixpoint tyname (sh : shape) : string :=
   match sh with
@@ -238,13 +240,14 @@ Fixpoint tyname (sh : shape) : string :=
   | SMapVal s => "map[string]" ++ tyname s
   | SMapKey | SMapKey2 => "map[configopaque.String]string"
   | SIface _ => "interface {}"
+  | SMarsh _ => "e2e.vMarsh"
   end.
 
 (* the dynamic value behind interfaces *)
 Fixpoint dyn (sh : shape) : shape := match sh with SIface s => dyn s | _ => sh end.
 
 Definition is_container (sh : shape) : bool :=
-  match dyn sh with SField _ _ | SSlice _ | SArray _ | SMapVal _ | SMapKey | SMapKey2 => true | _ => false end.
+  match dyn sh with SField _ _ | SSlice _ | SArray _ | SMapVal _ | SMapKey | SMapKey2 | SMarsh _ => true | _ => false end.
 
 (* the second secret held by a two-key map *)
 Definition second (s : string) : string := s ++ "#2".
@@ -259,7 +262,7 @@ Definition is_bare (sh : shape) : bool := match sh with SBare => true | _ => fal
 
 (* pointer to array, slice, struct or map: printed as &{...} at top level only *)
 Definition amp_kind (sh : shape) : bool :=
-  match sh with SField _ _ | SSlice _ | SArray _ | SMapVal _ | SMapKey | SMapKey2 => true | _ => false end.
+  match sh with SField _ _ | SSlice _ | SArray _ | SMapVal _ | SMapKey | SMapKey2 | SMarsh _ => true | _ => false end.
 
 (* verbs fmtPointer accepts *)
 Definition ptr_verb (v : string) : bool :=
@@ -289,6 +292,10 @@ Fixpoint pv (M : methods) (st : pst) (verb : string) (sh : shape) (depth : nat) 
       (if sharpV st then tyname sh else "") ++ "{" ++
       (if plusV st || sharpV st then (if ex then "F:" else "f:") else "") ++
       pv M st verb i (S depth) (ro || negb ex) s ++ "}"
+  | SMarsh i =>        (* fmt sees a struct with one exported field V of interface type *)
+      (if sharpV st then tyname sh else "") ++ "{" ++
+      (if plusV st || sharpV st then "V:" else "") ++
+      pv M st verb i (S depth) ro s ++ "}"
   | SSlice i =>
       let e := pv M st verb i (S depth) ro s in
       if sharpV st then tyname sh ++ "{" ++ e ++ ", " ++ e ++ "}" else "[" ++ e ++ " " ++ e ++ "]"
@@ -342,6 +349,7 @@ Fixpoint js (M : methods) (html : bool) (sh : shape) (s : string) : string :=
   | SIface i => js M html i s
   | SField true i => "{" ++ dquote ++ "F" ++ dquote ++ ":" ++ js M html i s ++ "}"
   | SField false _ => "{}"
+  | SMarsh i => "{" ++ dquote ++ "V" ++ dquote ++ ":" ++ js M html i s ++ "}"
   | SSlice i => "[" ++ js M html i s ++ "," ++ js M html i s ++ "]"
   | SArray i => "[" ++ js M html i s ++ "]"
   | SMapVal i => "{" ++ dquote ++ "k" ++ dquote ++ ":" ++ js M html i s ++ "}"
@@ -383,6 +391,7 @@ Fixpoint yaml_tree (M : methods) (sh : shape) (s : string) : tree :=
   | SIface i => yaml_tree M i s
   | SField true i => TMap [("f", yaml_tree M i s)]
   | SField false _ => TMap []
+  | SMarsh i => TMap [("v", yaml_tree M i s)]
   | SSlice i => TList [yaml_tree M i s; yaml_tree M i s]
   | SArray i => TList [yaml_tree M i s]
   | SMapVal i => TMap [("k", yaml_tree M i s)]
@@ -413,6 +422,11 @@ Fixpoint conf_tree (M : methods) (sh : shape) (s : string) : cres :=
   | SArray _ => COk (TRaw (tyname sh))
   | SMapVal i => cmap (fun t => TMap [("k", t)])
                       (fun e => "error encoding map value for key " ++ go_quote "k" ++ ": " ++ e) (conf_tree M i s)
+  | SMarsh i =>
+      (* marshalerHookFunc: Marshal(conf); conf.ToStringMap() = {"v": the typed value}; encodeStruct
+         then runs the encoder over that map (encodeMap), which is what redacts the value *)
+      cmap (fun t => TMap [("v", t)])
+           (fun e => "error encoding map value for key " ++ go_quote "v" ++ ": " ++ e) (conf_tree M i s)
   | SMapKey => COk (TMap [(m_MarshalText M s, TStr "v")])
   | SMapKey2 =>
       if String.eqb (m_MarshalText M s) (m_MarshalText M (second s))
@@ -421,8 +435,18 @@ Fixpoint conf_tree (M : methods) (sh : shape) (s : string) : cres :=
   end.
 
 (* Conf.Marshal accepts only a value that encodes to a map; an encoder error is returned as is *)
+Definition conf_top (M : methods) (sh : shape) (s : string) : cres :=
+  match dyn sh with
+  | SMarsh i =>
+      (* the value handed to Conf.Marshal itself is exempt from the Marshaler hook: its field V is
+         encoded like any struct field *)
+      cmap (fun t => TMap [("v", t)])
+           (fun e => "error encoding field " ++ go_quote "v" ++ ": " ++ e) (conf_tree M i s)
+  | _ => conf_tree M sh s
+  end.
+
 Definition render_confmap (M : methods) (sh : shape) (s : string) : string :=
-  match conf_tree M sh s with
+  match conf_top M sh s with
   | COk (TMap l) => canon (TMap l)
   | COk _ => "ERR invalid config encoding"
   | CErr e => "ERR " ++ e
@@ -481,14 +505,14 @@ Fixpoint no_unexported (sh : shape) : bool :=
   match sh with
   | SBare | SMapKey | SMapKey2 => true
   | SField ex i => ex && no_unexported i
-  | SPtr i | SSlice i | SArray i | SMapVal i | SIface i => no_unexported i
+  | SPtr i | SSlice i | SArray i | SMapVal i | SIface i | SMarsh i => no_unexported i
   end.
 
 Fixpoint no_mapkey (sh : shape) : bool :=
   match sh with
   | SBare => true
   | SMapKey | SMapKey2 => false
-  | SField _ i | SPtr i | SSlice i | SArray i | SMapVal i | SIface i => no_mapkey i
+  | SField _ i | SPtr i | SSlice i | SArray i | SMapVal i | SIface i | SMarsh i => no_mapkey i
   end.
 
 (* no pointer to a struct / slice / array / map below the top level (fmt prints such a pointer
@@ -497,7 +521,7 @@ Fixpoint no_deep_ptr (sh : shape) (depth : nat) : bool :=
   match sh with
   | SBare | SMapKey | SMapKey2 => true
   | SPtr i => (negb (amp_kind i) || Nat.eqb depth 0) && no_deep_ptr i (S depth)
-  | SField _ i | SSlice i | SArray i | SMapVal i | SIface i => no_deep_ptr i (S depth)
+  | SField _ i | SSlice i | SArray i | SMapVal i | SIface i | SMarsh i => no_deep_ptr i (S depth)
   end.
 
 Definition fmt_safe (verb : string) (sh : shape) : bool :=
@@ -521,19 +545,19 @@ Fixpoint fmt_reaches (sh : shape) (depth : nat) : bool :=
   | SBare | SMapKey | SMapKey2 => true
   | SIface i => fmt_reaches i (S depth)
   | SPtr i => is_bare i || (amp_kind i && Nat.eqb depth 0 && fmt_reaches i (S depth))
-  | SField _ i | SSlice i | SArray i | SMapVal i => fmt_reaches i (S depth)
+  | SField _ i | SSlice i | SArray i | SMapVal i | SMarsh i => fmt_reaches i (S depth)
   end.
 
 Fixpoint no_array (sh : shape) : bool :=
   match sh with
   | SBare | SMapKey => true
   | SArray _ | SMapKey2 => false      (* (a two-key map makes the config-map encoder fail) *)
-  | SField _ i | SPtr i | SSlice i | SMapVal i | SIface i => no_array i
+  | SField _ i | SPtr i | SSlice i | SMapVal i | SIface i | SMarsh i => no_array i
   end.
 
 Definition encodes_to_map (sh : shape) : bool :=
-  match dyn sh with SField _ _ | SMapVal _ | SMapKey => true
-  | SPtr i => match dyn i with SField _ _ | SMapVal _ | SMapKey => true | _ => false end
+  match dyn sh with SField _ _ | SMapVal _ | SMapKey | SMarsh _ => true
+  | SPtr i => match dyn i with SField _ _ | SMapVal _ | SMapKey | SMarsh _ => true | _ => false end
   | _ => false end.
 
 (* the (path, shape) pairs on which the value itself is printed (through its methods) *)
